@@ -326,10 +326,10 @@ class RenderShift(Stream):
             if cls == "free" and [x[0] for x in b] != [x[0] for x in m]:
                 return {"sig": "score-modulation-moves-absolute", "msg": f"part {nm}"}
             # Score.o(k) raises the melodies: s h c b a move by 12k, drums and relative notes do not
+            # (a relative note is not rewritten: it follows its reference, which moved by 12k, inside an octave-periodic system)
             if cls in ("relative", "free") and not nm.startswith("drums"):
-                if not any(n.get("dir") for c in case["score"] for a, notes in c["parts"] if a == nm for n in notes):
-                    if [x[0] + 12 * k for x in b] != [x[0] for x in o]:
-                        return {"sig": "score-octave", "msg": f"part {nm}: o({k})"}
+                if [x[0] + 12 * k for x in b] != [x[0] for x in o]:
+                    return {"sig": "score-octave", "msg": f"part {nm}: o({k}): {[x[0] for x in b][:8]} -> {[x[0] for x in o][:8]}"}
         return None
 
     def hist_keys(self, case, r):
